@@ -31,7 +31,8 @@
      Restart(n)  close + reopen of node n's storage and distribution layers
                  (persisted state only: counters, metadata, engine directories)
 
-   The code AS IT IS is described by the deviation constants (TRUE = as written):
+   The code AS IT IS is described by the deviation constants (TRUE = as written; FALSE =
+   the behaviour of the minimal repair, which is what a repaired tree is compared with):
      Dev_DeleteSkipsVirtual     cesium.DeleteChannels' first pass `if !uok {continue}`
                                 never removes virtual channels
      Dev_EngineCreateNoCleanup  CreateChannel stops at the first invalid entry and leaves
@@ -40,16 +41,23 @@
                                 index that still indexes data outside the batch
      Dev_OverwriteLocalEngine   deleteOverwritten removes overwritten channels from the
                                 engine of the node that runs it, whatever their lease
+                                (FALSE: other leaseholders' channels go through deleteRemote)
      Dev_CalcIndexTwice         a calculated channel's "_time" index is appended again by
                                 the bootstrapper when the request came through a peer
      Dev_CalcIndexUnchecked     the appended index names are never name-validated
+                                (FALSE: names are validated after the append)
      Dev_FreeRenameStaleIndex   a free channel renamed through a non-bootstrapper gateway is
                                 written in that gateway's tx and forwarded to the bootstrapper,
                                 whose name index (fed by local txs and by an observable that
                                 ignores host-leased rows) keeps the OLD name: lookups by name
                                 on the bootstrapper no longer find the channel
+                                (FALSE: free renames are sent to the bootstrapper's handler)
      Window_EngineBeforeMeta    a failure may strike after an engine mutation and before
-                                the metadata transaction commits (masked: never there)
+                                the metadata transaction commits (masked: never there).
+                                Input-driven instances that remain with every Dev_* FALSE:
+                                a failing create with the overwrite option (engine side of
+                                deleteOverwritten already ran) and a failing second
+                                CreateMany of one transaction (Chain).
 
    Projection used by the harness (zz_verif_channel_test.go):
      meta      <- channel.Service.NewRetrieve() of all non-internal channels (every node,
@@ -58,10 +66,14 @@
      last.ret  <- the channels returned by CreateMany (name, key), matched by name
      keyOf     <- the harness' own name -> last returned key map (used to address
                   delete / rename / index references symbolically)
+     ixn       <- not observed directly (channel.MatchNames lookups on the bootstrapper)
    Pinned beyond the property (compared as DRIFT, never as violation): request outcome
-   (ok/fail) of every request, the exact counter value consumed by failing requests,
-   the order in which deleteOverwritten / retrieve-if-exists visit existing channels,
-   `onto` (ontology resources; not bound).                                          *)
+   (ok/fail) of every request, the counter values consumed by failing requests and by
+   overwrite/retrieve requests, the returned keys, the remote-frame commit points of
+   multi-leaseholder requests that fail later, `onto` (ontology resources; not bound).
+   Not predicted at all (behaviours flagged `amb` are not replayed): the order in which
+   peers of a FAILING request are visited (Go map iteration) and which of several
+   channels sharing a name a lookup returns last.                                  *)
 EXTENDS Naturals, FiniteSets, Sequences, SequencesExt, TLC
 
 CONSTANTS Node,          \* {1} | {1,2} | {1,2,3}; 1 is the bootstrapper
